@@ -29,11 +29,11 @@ Qed.
 
 (* ---------- record algebra ---------- *)
 Lemma eta_dels : forall s, s = set_stake (set_start s (start s)) (set_dels (stake s) (dels (stake s)) (idx71 (stake s))).
-Proof. intros [c n h a v b st [d i7 u i3 q r i5 i6 rq ui] g m]. reflexivity. Qed.
+Proof. intros [c n h a v b st [d i7 u i3 q r i5 i6 rq ui] g m lk]. reflexivity. Qed.
 Lemma eta_ubd : forall s, s = set_stake s (set_unbidx (set_ubd (stake s) (ubds (stake s)) (idx33 (stake s)) (ubdq (stake s))) (unbidx (stake s))).
-Proof. intros [c n h a v b st [d i7 u i3 q r i5 i6 rq ui] g m]. reflexivity. Qed.
+Proof. intros [c n h a v b st [d i7 u i3 q r i5 i6 rq ui] g m lk]. reflexivity. Qed.
 Lemma eta_red : forall s, s = set_stake s (set_unbidx (set_red (stake s) (reds (stake s)) (idx35 (stake s)) (idx36 (stake s)) (redq (stake s))) (unbidx (stake s))).
-Proof. intros [c n h a v b st [d i7 u i3 q r i5 i6 rq ui] g m]. reflexivity. Qed.
+Proof. intros [c n h a v b st [d i7 u i3 q r i5 i6 rq ui] g m lk]. reflexivity. Qed.
 
 Section Exec.
   Variables from to : addr.
@@ -63,7 +63,7 @@ Section Exec.
     let s' := set_stake (set_start s A) (set_dels (stake s) B C) in
     set_stake (set_start s' (F (start s'))) (set_dels (stake s') (G (dels (stake s'))) (H (idx71 (stake s'))))
     = set_stake (set_start s (F A)) (set_dels (stake s) (G B) (H C)).
-  Proof. intros [c n h a v b st [d i7 u i3 q r i5 i6 rq ui] g m] A B C F G H. reflexivity. Qed.
+  Proof. intros [c n h a v b st [d i7 u i3 q r i5 i6 rq ui] g m lk] A B C F G H. reflexivity. Qed.
 
   Lemma mig_del_step_ok : forall s kv s',
     mig_del_step from to (Ok s) kv = Ok s' ->
@@ -72,7 +72,7 @@ Section Exec.
   Proof.
     intros s kv s'. unfold mig_del_step, start_step, dels_step, idx71_step. cbn [bind].
     destruct (sget k2_eqb (from, d_val (snd kv)) (start s)) as [si|]; [|discriminate].
-    intros H. inversion H. destruct s as [c n h a v b st [d i7 u i3 q r i5 i6 rq ui] g m]. reflexivity.
+    intros H. inversion H. destruct s as [c n h a v b st [d i7 u i3 q r i5 i6 rq ui] g m lk]. reflexivity.
   Qed.
 
   Lemma mig_dels_closed : forall L s s1,
@@ -112,7 +112,7 @@ Section Exec.
     induction L as [|kv L IH]; intros s.
     - cbn. apply eta_ubd.
     - cbn [fold_left]. rewrite IH.
-      destruct s as [c n h a v b st [d i7 u i3 q r i5 i6 rq ui] g m]. reflexivity.
+      destruct s as [c n h a v b st [d i7 u i3 q r i5 i6 rq ui] g m lk]. reflexivity.
   Qed.
 
   (* ----- redelegations ----- *)
@@ -140,7 +140,7 @@ Section Exec.
     induction L as [|kv L IH]; intros s.
     - cbn. apply eta_red.
     - cbn [fold_left]. rewrite IH.
-      destruct s as [c n h a v b st [d i7 u i3 q r i5 i6 rq ui] g m]. reflexivity.
+      destruct s as [c n h a v b st [d i7 u i3 q r i5 i6 rq ui] g m lk]. reflexivity.
   Qed.
 
   (* ----- the whole handler in closed form ----- *)
@@ -168,7 +168,7 @@ Section Exec.
     intros s s1 H. unfold staking_execute in H. apply bind_ok in H. destruct H as [sa [H1 H2]].
     apply mig_dels_closed in H1. inversion H2 as [H3]. clear H2.
     rewrite mig_reds_closed, mig_ubds_closed. subst sa.
-    destruct s as [c n h a v b st [d i7 u i3 q r i5 i6 rq ui] g m]. reflexivity.
+    destruct s as [c n h a v b st [d i7 u i3 q r i5 i6 rq ui] g m lk]. reflexivity.
   Qed.
 End Exec.
 
@@ -273,10 +273,10 @@ Section BankFold.
 End BankFold.
 
 Lemma bank_execute_char : forall from to s, from <> to -> NoDup (map fst (bal s)) ->
-  forall a d, bal_of (bank_execute from to s) a d =
+  forall a d, bal_of (bank_move from to s) a d =
     if a =? to then bal_of s to d + bal_of s from d else if a =? from then 0 else bal_of s a d.
 Proof.
-  intros from to s N ND a d. unfold bal_of, bank_execute. cbn [bal set_bal].
+  intros from to s N ND a d. unfold bal_of, bank_move. cbn [bal set_bal].
   change (match sget k2_eqb (a, d) ?m with Some x => x | None => 0 end) with (get_bal a d m).
   pose proof (bank_fold_get from to N (filter (fun kv : k2 * Z => fst (fst kv) =? from) (bal s)) (bal s)) as H.
   unfold bank_step in H. rewrite H; clear H.
@@ -290,9 +290,9 @@ Proof.
 Qed.
 
 Lemma bank_execute_supply : forall from to s d, from <> to -> NoDup (map fst (bal s)) ->
-  supply (bank_execute from to s) d = supply s d.
+  supply (bank_move from to s) d = supply s d.
 Proof.
-  intros from to s d N ND. unfold supply, bank_execute. cbn [bal set_bal].
+  intros from to s d N ND. unfold supply, bank_move. cbn [bal set_bal].
   change (fun kv : k2 * Z => if snd (fst kv) =? d then snd kv else 0) with (wden d).
   apply (bank_fold_sum from to N). exact ND.
 Qed.
